@@ -340,12 +340,12 @@ pub fn type_chaos_words(cs: &mut Cs) -> (Vec<u32>, Vec<String>) {
         let ty = 1 + cs.below(4) as u32;
         match cs.below(8) {
             0 | 1 => {
-                let width = [8u32, 16, 32, 64, 64, 24, 128][cs.below(7)];
+                let width = [8u32, 16, 32, 64, 64, 24, 128, 0, 1, 33, 63, 65, 0x7fff_ffff, 0x8000_0000, 0xffff_ffe0, 0xffff_ffe1, 0xffff_fff0, 0xffff_ffff][cs.below(18)];
                 w.extend([(4 << 16) | OP_TYPE_INT, id, width, cs.below(2) as u32]);
                 desc.push(format!("%{} = OpTypeInt {}", id, width));
             }
             2 => {
-                let width = [16u32, 32, 64, 64, 8][cs.below(5)];
+                let width = [16u32, 32, 64, 64, 8, 0, 1, 31, 65, 128, 0x7fff_ffff, 0x8000_0000, 0xffff_ffe1, 0xffff_fff0, 0xffff_ffff][cs.below(15)];
                 w.extend([(3 << 16) | OP_TYPE_FLOAT, id, width]);
                 desc.push(format!("%{} = OpTypeFloat {}", id, width));
             }
